@@ -194,6 +194,9 @@ func (d *Datastore) lowlevelTransactionSet(ctx context.Context, transaction *typ
 	// where the New flag is set
 	flagNew.SetNewFlag()
 
+	// the stored content of the intents before this transaction, per intent name
+	oldIntentContents := map[string]tree.UpdateSlice{}
+
 	// iterate through all the intents
 	for _, intent := range transaction.GetNewIntents() {
 		// update the TreeContext to reflect the actual owner (intent name)
@@ -212,6 +215,7 @@ func (d *Datastore) lowlevelTransactionSet(ctx context.Context, transaction *typ
 		if err != nil {
 			return nil, err
 		}
+		oldIntentContents[intent.GetName()] = oldIntentContent
 
 		// add the content to the Tree
 		err = root.AddCacheUpdatesRecursive(ctx, intent.GetUpdates(), flagNew)
@@ -330,6 +334,19 @@ func (d *Datastore) lowlevelTransactionSet(ctx context.Context, transaction *typ
 
 		delSl := deletesOwner.StringSlice()
 		log.Debugf("Deletes Owner: %s \n%s", intent.GetName(), strings.Join(delSl, "\n"))
+
+		// the store matches deletes on (path, priority, owner): if the intent moved to
+		// another priority, its old entries are to be removed under the old priority
+		if old := oldIntentContents[intent.GetName()]; len(old) > 0 && old.GetFirstPriorityValue() != intent.GetPriority() {
+			err = d.cacheClient.Modify(ctx, d.Name(), &cache.Opts{
+				Store:    cachepb.Store_INTENDED,
+				Owner:    intent.GetName(),
+				Priority: old.GetFirstPriorityValue(),
+			}, old.ToPathSet().GetPaths().ToStringSlice(), nil)
+			if err != nil {
+				return nil, fmt.Errorf("failed updating the intended store for %s: %w", d.Name(), err)
+			}
+		}
 
 		// modify intended store per intent
 		err = d.cacheClient.Modify(ctx, d.Name(), &cache.Opts{
